@@ -336,10 +336,9 @@ inline void gen_text(Rng& r, bool thorough) {
   for (const char* f : {"Geohash.Forward", "Geohash.Resolution", "GARS.Forward", "Georef.Forward", "OSGB.GridReference", "MGRS.ForwardPrec", "MGRS.ForwardZone", "UTMUPS.ForwardSetzone", "UTMUPS.ReverseZone", "UTMUPS.TransferZone",
                         "UTMUPS.EncodeZone", "UTMUPS.EncodeEPSG", "UTMUPS.DecodeEPSG", "UTMUPS.StandardZone", "GeoCoords.SetAltZone", "GeoCoords.Zone", "PolygonArea.AddPointN"})
     for (long long v : ints) { stratum("int-argument"); runx("c13_int", {f, std::to_string(v)}); }
-  // DST(N): sizes beyond a few million are allocations of gigabytes (2N complex twiddles) and are not exercised; N >= 2^30 makes `2 * N`
-  // overflow before anything is allocated (open finding G13-5): confined to a child
+  // DST(N): sizes beyond a few million are allocations of gigabytes (2N complex twiddles) and are not exercised -- since the repair of F81
+  // (416ecc1: the size is computed in size_t) N >= 2^30 is such a request (32 GB) instead of an int overflow
   for (long long v : {-2147483648LL, -1000LL, -1LL, 0LL, 1LL, 2LL, 3LL, 4LL, 5LL, 6LL, 7LL, 16LL, 60LL, 64LL, 1000LL, 65536LL}) { stratum("int-argument"); runx("c13_int", {"DST.N", std::to_string(v)}); }
-  for (long long v : {1073741824LL, 2147483647LL}) { stratum("int-argument-huge-size"); run_isolated("c13_int", {"DST.N", std::to_string(v)}, 60); }
   for (long long v : {0LL, 1LL, 5LL, 15LL, 16LL, 20LL, 100LL, 1000LL}) { stratum("int-argument"); runx("c13_int", {"DMS.EncodePrec", std::to_string(v)}); runx("c13_int", {"Utility.strPrec", std::to_string(v)}); }
   for (const char* f : {"Utility.day", "Utility.dayCheck", "Utility.dayMonth", "Utility.dateInt", "Utility.dow"})
     for (long long v : ints) {
